@@ -75,7 +75,7 @@ theorem seqFind_findSig (s : Bytes) (j : Nat) (h : j ≤ s.length) :
 
 theorem sliceSeq_from (s : Bytes) (j : Nat) : Py.sliceSeq s (some (j : Int)) none = s.drop j := by
   have h0 : ¬ ((j : Int) < 0) := by omega
-  simp only [Py.sliceSeq, Py.sliceBound, h0, if_false, Int.toNat_natCast, List.take_length]
+  simp only [Py.sliceSeq, Py.sliceIdx, h0, if_false, Int.toNat_natCast, List.take_length]
   by_cases h : j ≤ s.length
   · rw [Nat.min_eq_left h]
   · have h' : s.length ≤ j := by omega
@@ -85,7 +85,7 @@ theorem sliceSeq_span (s : Bytes) (j : Nat) (L : Int) (hL : 0 ≤ L) (h : j ≤ 
     Py.sliceSeq s (some (j : Int)) (some ((j : Int) + L)) = (s.drop j).take L.toNat := by
   have h0 : ¬ ((j : Int) < 0) := by omega
   have h1 : ¬ ((j : Int) + L < 0) := by omega
-  simp only [Py.sliceSeq, Py.sliceBound, h0, h1, if_false, Int.toNat_natCast]
+  simp only [Py.sliceSeq, Py.sliceIdx, h0, h1, if_false, Int.toNat_natCast]
   rw [Nat.min_eq_left h]
   have e : ((j : Int) + L).toNat = j + L.toNat := by omega
   rw [e, List.drop_take]
